@@ -379,10 +379,13 @@ func c20Child() {
 }
 
 // c20SameOrder: got must equal want, except that entries whose create time lies
-// within 3 s of the retention edge may be present or absent.
+// within 3 s of the retention edge (see below) may be present or absent.
+// (edge is the retention edge when the case list was generated; the recorder computes its own edge from the clock at the
+// moment it loads or expires, which is later: entries between the two edges may legitimately be present or absent.)
 func c20SameOrder(want, got []EventType, edge uint64) bool {
 	i, j := 0, 0
-	near := func(e EventType) bool { return e.CreateTime+3 >= edge && e.CreateTime <= edge+3 }
+	edgeNow := uint64(time.Now().Unix()) - uint64(durationMonth/time.Second)
+	near := func(e EventType) bool { return e.CreateTime+3 >= edge && e.CreateTime <= edgeNow+3 }
 	for i < len(want) || j < len(got) {
 		switch {
 		case i < len(want) && j < len(got) && reflect.DeepEqual(want[i], got[j]):
